@@ -402,7 +402,7 @@ impl<'a> World<'a> {
         } else if imust && !must && !replay && !ok {
             // a receiver that never evicts contexts would have had to accept this packet: the stream lost its
             // rollover state to the (documented) idle-context eviction
-            self.diverge("EXT", "NoLossByEviction", wher, "rr", proto, "", json!({"ssrc": k, "idx": i, "error": err}));
+            self.diverge("C04", "NoLossByEviction", wher, "rr", proto, "", json!({"field": "idle_context_evicted", "ssrc": k, "idx": i, "error": err}));
         }
 
         // world r2ref: rustrtc -> reference
@@ -929,7 +929,7 @@ fn run_edge(edge: &Value, lineno: u64, pname: &str, use_ref: bool, few: bool, sm
         } else if would != after {
             w.diverge("EXT", "Estimate", "probe", "rr", proto, &act.kind, json!({"packet": [row[0], k, i], "model_would": would, "after": after}));
         } else if row.get(5).and_then(|v| v.as_i64()) == Some(1) && !must && !after && !w_got(edge, rtcp, k, i) {
-            w.diverge("EXT", "NoLossByEviction", "probe", "rr", proto, &act.kind, json!({"packet": [row[0], k, i], "op": act.op}));
+            w.diverge("C04", "NoLossByEviction", "probe", "rr", proto, &act.kind, json!({"field": "idle_context_evicted", "packet": [row[0], k, i], "op": act.op}));
         }
     }
     for (k, i, x, _pkt) in next_pkts.iter() {
@@ -949,9 +949,70 @@ fn run_edge(edge: &Value, lineno: u64, pname: &str, use_ref: bool, few: bool, sm
     (w.out, stats)
 }
 
+/// Sender-side observation (EXT, not a listed property): with more than 32 transmit contexts, a stream that was
+/// silent for 60 s loses its transmit context; when it resumes, its rollover counter and SRTCP index restart.
+/// usage: srtp txprobe <out.ndjson>
+fn txprobe(out_path: &str) {
+    let mut out = NdjsonOut::create(out_path);
+    let mut rng = Rng::from_env();
+    for pname in PROFILES {
+        let key = rng.bytes(16);
+        let salt = rng.bytes(if pname == "gcm" { 12 } else { 14 });
+        let p = profile_of(pname);
+        let mut tx = new_session(p, &key, &salt);
+        let mut rx = new_session(p, &key, &salt);
+        let victim = 0x5151_0001u32;
+        let mut send = |tx: &mut SrtpSession, rx: &mut SrtpSession, ssrc: u32, seq: u16, rng: &mut Rng| -> bool {
+            let pkt = gen_rtp(rng, ssrc, seq, true);
+            let mut x = vec![0u8; tx.protected_rtp_len(&pkt)];
+            tx.protect_rtp(&pkt, &mut x).expect("protect");
+            unprotect_rtp(rx, &x).is_ok()
+        };
+        let mut ok_before = true;
+        for seq in [65534u16, 65535, 0, 1] {
+            ok_before &= send(&mut tx, &mut rx, victim, seq, &mut rng);
+        }
+        let plain1 = gen_rtcp(&mut rng, victim, true);
+        let mut y1 = plain1.clone();
+        tx.protect_rtcp(&mut y1).expect("protect rtcp");
+        let tx_before = tx.verif_tx_state(victim);
+        for i in 0..REAL_WATERMARK as u32 {
+            send(&mut tx, &mut rx, 0x7000_0000 + i, 100, &mut rng);
+        }
+        let aged = tx.verif_backdate_tx(victim, 61);
+        send(&mut tx, &mut rx, 0x7000_0000, 101, &mut rng); // any other stream's packet runs the eviction
+        let tx_evicted = tx.verif_tx_state(victim).is_none();
+        let ok_after = send(&mut tx, &mut rx, victim, 2, &mut rng);
+        let tx_after = tx.verif_tx_state(victim);
+        let plain2 = gen_rtcp(&mut rng, victim, true);
+        let mut y2 = plain2.clone();
+        tx.protect_rtcp(&mut y2).expect("protect rtcp");
+        let idx_of = |y: &[u8], pl: usize| {
+            let io = if pname == "gcm" { pl + 16 } else { pl };
+            u32::from_be_bytes([y[io], y[io + 1], y[io + 2], y[io + 3]]) & 0x7FFF_FFFF
+        };
+        out.push(&json!({"type": "txprobe", "profile": pname, "aged": aged, "accepted_before_idle": ok_before,
+            "tx_state_before": tx_before.map(|s| st_json(&s)), "tx_context_evicted": tx_evicted,
+            "tx_state_after": tx_after.map(|s| st_json(&s)), "accepted_after_idle": ok_after,
+            "srtcp_index_first": idx_of(&y1, plain1.len()), "srtcp_index_after_idle": idx_of(&y2, plain2.len())}));
+        if ok_before && !ok_after {
+            out.push(&json!({"type": "divergence", "prop": "C04", "rule": "NoLossByEviction", "where": "txprobe", "world": "tx",
+                "proto": "rtp", "kind": "", "profile": pname, "pclass": if pname == "gcm" { "aead" } else { "hmac" },
+                "detail": {"field": "idle_tx_context_evicted", "tx_state_before": tx_before.map(|s| st_json(&s)),
+                           "tx_state_after": tx_after.map(|s| st_json(&s)),
+                           "srtcp_index_reused": idx_of(&y1, plain1.len()) == idx_of(&y2, plain2.len())}}));
+        }
+    }
+    out.finish();
+}
+
 fn main() {
     quiet_panics();
     let args: Vec<String> = std::env::args().collect();
+    if args.len() == 3 && args[1] == "txprobe" {
+        txprobe(&args[2]);
+        return;
+    }
     if args.len() < 3 {
         eprintln!("usage: srtp <edges.ndjson> <out.ndjson> [--shard i/n] [--bits few|all] [--profiles a,b] [--noref]");
         std::process::exit(2);
